@@ -268,3 +268,102 @@ fn history<const STEPS: usize>() {
 h!(q_history_3, 5, history::<3>());
 h!(t_history_4, 6, history::<4>());
 h!(t_history_2, 4, history::<2>());
+
+// the same over the thin/fat pair: {fat Arc, ThinArc, raw thin pointer} to one header+slice allocation
+enum TSlot {
+    Empty,
+    F(Arc<HS<Dt, Dt>>),
+    T(ThinArc<Dt, Dt>),
+    R(*const core::ffi::c_void),
+}
+impl TSlot {
+    fn occupied(&self) -> bool {
+        !matches!(self, TSlot::Empty)
+    }
+    fn into_fat(self) -> Arc<HS<Dt, Dt>> {
+        match self {
+            TSlot::F(a) => a,
+            TSlot::T(t) => Arc::from_thin(t),
+            TSlot::R(p) => Arc::from_thin(unsafe { ThinArc::from_raw(p) }),
+            TSlot::Empty => unreachable!(),
+        }
+    }
+    fn from_fat(a: Arc<HS<Dt, Dt>>, kind: u8) -> TSlot {
+        match kind {
+            0 => TSlot::F(a),
+            1 => TSlot::T(Arc::into_thin(a)),
+            _ => TSlot::R(Arc::into_thin(a).into_raw()),
+        }
+    }
+    fn dup(&self, kind: u8) -> TSlot {
+        let a = match self {
+            TSlot::F(a) => a.clone(),
+            TSlot::T(t) => Arc::from_thin(t.clone()),
+            TSlot::R(p) => {
+                let t = ManuallyDrop::new(unsafe { ThinArc::<Dt, Dt>::from_raw(*p) });
+                Arc::from_thin((*t).clone())
+            }
+            TSlot::Empty => unreachable!(),
+        };
+        TSlot::from_fat(a, kind)
+    }
+}
+fn thin_history<const STEPS: usize>() {
+    let (a, n) = mk_hs_n::<1>();
+    let w = ManuallyDrop::new(unsafe { core::ptr::read(&a) });
+    let blk = a.heap_ptr() as usize;
+    let sig = w.sig();
+    let mut s0 = TSlot::F(a);
+    let mut s1 = TSlot::Empty;
+    let mut alive = true;
+    let mut step = 0;
+    while step < STEPS {
+        if !alive {
+            break;
+        }
+        let op: u8 = kani::any();
+        let kind: u8 = kani::any();
+        kani::assume(op < 3 && kind < 3);
+        let first: bool = kani::any();
+        let (src, dst) = if first { (&mut s0, &mut s1) } else { (&mut s1, &mut s0) };
+        if src.occupied() {
+            match op {
+                0 => {
+                    if !dst.occupied() {
+                        *dst = src.dup(kind);
+                    }
+                }
+                1 => {
+                    let h = core::mem::replace(src, TSlot::Empty);
+                    *src = TSlot::from_fat(h.into_fat(), kind);
+                }
+                _ => {
+                    let h = core::mem::replace(src, TSlot::Empty);
+                    drop(h.into_fat());
+                }
+            }
+        }
+        let k = s0.occupied() as usize + s1.occupied() as usize;
+        if k == 0 {
+            alive = false;
+            assert!(ledger_is(0, n), "header and elements not destroyed exactly once when the last handle went");
+            assert!(block_of(blk).is_none() && n_live() == 0, "block not returned exactly once");
+        } else {
+            assert!(raw_count(&w) == k, "count differs from the number of owning handles");
+            assert!(ledger_zero() && block_of(blk).is_some());
+            assert!(w.sig() == sig && w.header.length == 1 && w.slice.len() == 1, "payload or recorded length changed");
+        }
+        step += 1;
+    }
+    kani::cover!(!alive, "history that releases everything");
+    kani::cover!(alive && s0.occupied() && s1.occupied(), "history that ends with two owners");
+    if s0.occupied() {
+        drop(core::mem::replace(&mut s0, TSlot::Empty).into_fat());
+    }
+    if s1.occupied() {
+        drop(core::mem::replace(&mut s1, TSlot::Empty).into_fat());
+    }
+    assert!(ledger_is(0, n) && n_live() == 0);
+}
+h!(t_thin_history_3, 5, thin_history::<3>());
+h!(t_thin_history_2, 4, thin_history::<2>());
